@@ -444,19 +444,54 @@ class VectorizedFn:
         for m in ns[1:]:
             if not M._same_len(n, m):
                 raise ValueError("operands could not be broadcast together")
+        cur().ensure(alg.gt(n, 0), ValueError, "cannot call `vectorize` on size 0 inputs unless `otypes` is set")
         f = self.f
         anym = any(m is not None for m in ms)
 
-        def elem(i):
+        def at(i):
             xs = [SNum(g(i)[1], g(i)[0], "f") for g in gs]
             r = f(*xs)
             return M._scalar_pair(r)
 
+        elem = generic_map(n, at)
         data = Arr(n, "f", elem)
         if not anym:
             return data
         mask = Arr(n, "b", lambda i: (False, alg.or_(*[m(i)[1] for m in ms if m is not None])))
         return MArr(data, mask)
+
+
+def generic_map(n, at):
+    """element function of `at` applied position-wise, evaluated *now* (user code such as the
+    vectorised closure must run inside the path): concrete length -> eager list; symbolic length ->
+    one evaluation at a fresh generic index j, later instantiated by substitution j := i.  Ground
+    axioms the evaluation introduces become universal facts over the positions."""
+    c = cur()
+    cn = alg.as_concrete(n)
+    if cn is not None:
+        vals = [at(i) for i in range(cn)]
+
+        def elem(i):
+            ci = alg.as_concrete(i) if alg.is_sym(i) else i
+            if ci is None:
+                raise Unsupported("symbolic index into an eagerly mapped concrete array")
+            return vals[ci]
+
+        return elem
+    j = c.fresh("gj", z3.IntSort())
+    a0, f0 = len(c.aux), c.nforks
+    r = at(j)
+    if c.nforks != f0:
+        c.unsupported_here("data-dependent branch inside a vectorised function")
+    new_aux = c.aux[a0:]
+    del c.aux[a0:]
+
+    def sub(t, i):
+        return z3.substitute(t, (j, alg.lift(i))) if alg.is_sym(t) else t
+
+    for t in new_aux:
+        c.add_fact("generic-axiom", lambda i, t=t: alg.implies(M.in_range(i, n), sub(t, i)))
+    return lambda i: (sub(r[0], i), sub(r[1], i))
 
 
 # ------------------------------------------------------------------ np.ma namespace
